@@ -1,5 +1,6 @@
 (* C03 - A dead or stale handle can never read or change a live entity's components. *)
-From SV Require Import Alloc.AllocStep Store.Raw Store.Masked Store.DeadHandle World.WorldSpec World.Micro.
+From SV Require Import Alloc.AllocStep Store.Raw Store.Masked Store.DeadHandle World.Env World.Join World.JoinProps
+  World.WorldSpec World.Micro.
 
 (* every handle-taking access path of the Storage API, any storage kind and wrapper, any mask
    (in particular when a newer entity occupies the handle's index): absent outcome, storage unchanged *)
@@ -28,6 +29,37 @@ Theorem C03_stale_forever : forall tr tr' e,
   av_alive (l_view (s_life (fst (srun s_init (tr ++ tr'))))) e = false.
 Proof. exact accepted_dead_forever. Qed.
 
+(* the lending join's lookup by entity: a dead handle gets no item and nothing is touched, whatever occupies its
+   index now *)
+Theorem C03_lending_lookup_of_a_dead_handle : forall e av eids hs ms h ent,
+  pv_get hs (N.of_nat h) = Some ent -> av_alive av ent = false ->
+  env_join e av eids hs (JLendGet h) ms = (e, JOne None) \/ env_join e av eids hs (JLendGet h) ms = (e, JSkipped) \/
+  env_join e av eids hs (JLendGet h) ms = (env_fail e, JSkipped).
+Proof.
+  intros e av eids hs ms h ent Hh Ha. unfold env_join.
+  destruct (negb (join_ok e (JLendGet h) ms)); [right; left; reflexivity|].
+  destruct (negb (handles_ok hs (JLendGet h) ms)); [right; left; reflexivity|].
+  destruct (negb (forallb (m_registered e) ms)); [right; right; reflexivity|].
+  rewrite Hh, Ha, andb_false_r. left. reflexivity.
+Qed.
+
+(* looking another entity up through a restricted item (get_other / get_other_mut): a dead handle is answered with
+   nothing, and no lookup changes any membership *)
+Theorem C03_restricted_lookup_of_a_dead_handle : forall av hs sid mutably l e n h ent,
+  nth_error l n = Some h -> pv_get hs (N.of_nat h) = Some ent -> av_alive av ent = false ->
+  nth_error (snd (others_lookup av hs sid mutably l e)) n = Some None.
+Proof.
+  intros av hs sid mutably l e n h ent Hn Hh Ha.
+  destruct (others_lookup_spec av hs sid mutably l e) as [Hs _].
+  assert (nth_error (map is_some (snd (others_lookup av hs sid mutably l e))) n = Some false) as X.
+  { rewrite Hs. rewrite (map_nth_error (other_present e av hs sid) n l Hn). unfold other_present. rewrite Hh, Ha, andb_false_r. reflexivity. }
+  destruct (nth_error (snd (others_lookup av hs sid mutably l e)) n) as [[t|]|] eqn:E;
+    [rewrite (map_nth_error is_some n _ E) in X; cbn in X; congruence | reflexivity |].
+  assert (nth_error (map is_some (snd (others_lookup av hs sid mutably l e))) n = None) as Y.
+  { apply nth_error_None. rewrite map_length. apply nth_error_None. exact E. }
+  congruence.
+Qed.
+
 (* non-vacuity: a stale handle whose index was taken over; every path, real run of the model *)
 Example C03_nonvacuous :
   let os := [OStore (SRegister 0); OCreate [(0, (1, 10%Z))]; ODelete 0%nat; OCreate [(0, (2, 20%Z))];
@@ -39,3 +71,5 @@ Proof. vm_compute. reflexivity. Qed.
 
 Print Assumptions C03_dead_handle_is_absent.
 Print Assumptions C03_stale_forever.
+Print Assumptions C03_lending_lookup_of_a_dead_handle.
+Print Assumptions C03_restricted_lookup_of_a_dead_handle.
